@@ -31,6 +31,7 @@ http://www.musicxml.org/xml.html
 from __future__ import absolute_import
 
 import datetime
+from fractions import Fraction
 from functools import reduce
 from xml.dom.minidom import Document
 
@@ -96,6 +97,14 @@ def _note2musicxml(note):
     return note_node
 
 
+def _quarter_length(parsed_value):
+    """Return the exact length in quarter notes of the result of
+    value.determine: (base value, dots, ratio)."""
+    base, dots, rat1, rat2 = parsed_value
+    length = 4 / Fraction(base) * (2 - Fraction(1, 2 ** dots))
+    return length * rat2 / rat1
+
+
 def _bar2musicxml(bar):
     doc = Document()
     bar_node = doc.createElement("measure")
@@ -103,11 +112,12 @@ def _bar2musicxml(bar):
     # bar attributes
     attributes = doc.createElement("attributes")
 
-    # calculate divisions by using the LCM
+    # calculate divisions (parts of a quarter note) by using the LCM of the
+    # denominators of all lengths, dots and tuplets included
     l = []
     for nc in bar:
-        l.append(int(value.determine(nc[1])[0]))
-    lcm = _lcm(terms=l) * 4
+        l.append(_quarter_length(value.determine(nc[1])).denominator)
+    lcm = int(_lcm(terms=l))
     divisions = doc.createElement("divisions")
     divisions.appendChild(doc.createTextNode(str(lcm)))
     attributes.appendChild(divisions)
@@ -151,7 +161,7 @@ def _bar2musicxml(bar):
 
             # convert the duration of the note
             duration = doc.createElement("duration")
-            duration.appendChild(doc.createTextNode(str(int(lcm * (4.0 / beat)))))
+            duration.appendChild(doc.createTextNode(str(int(lcm * _quarter_length(time)))))
             note.appendChild(duration)
 
             # check for dots
